@@ -47,6 +47,54 @@ class Ctx:
             self._eff = Effects(self.p, self.tf, self.cg)
         return self._eff
 
+    def normalised(self, prefix: str) -> "Ctx":
+        """The analysis context of the project in which every module whose path starts with `prefix` is replaced by its
+        normal form (private helpers inlined, private records dissolved - sa/inline.py); `self` when nothing changes."""
+        cache = self.__dict__.setdefault("_norm", {})
+        if prefix not in cache:
+            from .inline import normalise_source
+            priv: dict[str, set[str]] = {}
+            for o in self.p.modules.values():
+                names: set[str] = set()
+                for n in ast.walk(o.tree):
+                    if isinstance(n, ast.Name) and n.id.startswith("_"):
+                        names.add(n.id)
+                    elif isinstance(n, ast.Attribute) and n.attr.startswith("_"):
+                        names.add(n.attr)
+                    elif isinstance(n, ast.alias) and n.name.startswith("_"):
+                        names.add(n.name)
+                priv[o.rel] = names
+            changed: dict[str, tuple[str, list[str], dict[int, int]]] = {}
+            for rel, m in sorted(self.p.modules.items()):
+                if not rel.startswith(prefix):
+                    continue
+                if not any(isinstance(s, (ast.FunctionDef, ast.ClassDef)) and s.name.startswith("_") and not s.name.startswith("__")
+                           for s in m.tree.body):
+                    continue
+                ext = set().union(*[v for k, v in priv.items() if k != rel])
+                try:
+                    new, log, lm = normalise_source(m.source, ext)
+                except (SyntaxError, RecursionError):
+                    new = None
+                if new is not None:
+                    changed[rel] = (new, log, lm)
+            if not changed:
+                cache[prefix] = self
+            else:
+                p2 = self.p.with_sources({rel: v[0] for rel, v in changed.items()})
+                for rel, v in changed.items():
+                    p2.modules[rel].norm_log = v[1]
+                    p2.modules[rel].line_map = v[2]
+                cache[prefix] = Ctx(p2, self.tier)
+        return cache[prefix]
+
+    def norm_notes(self) -> list[str]:
+        out = []
+        for rel, m in sorted(self.p.modules.items()):
+            if m.norm_log:
+                out.append(f"{rel} analysed in normal form ({len(m.norm_log)} rewriting steps: " + "; ".join(dict.fromkeys(m.norm_log)) + ")")
+        return out
+
     def cfg(self, f: Func, may_raise: Callable[[ast.AST], bool] | None = None) -> CFG:
         if may_raise is not None:
             return CFG(f.node, may_raise)
